@@ -328,9 +328,11 @@ def gen_crash_workload(rng):
         if j == 1:
             ms["dscopy"] = rng.random() < 0.5
         r = rng.random()
-        if r < 0.4:
+        if r < 0.55 or j == 0:
+            # (results are written after the model file: an entry with results is the one whose partial state differs
+            # observably from its complete state, so every workload has at least one)
             ms["results"] = gen_results_spec(rng)
-        elif r < 0.6:
+        elif r < 0.75:
             ms["as_entry"] = True
         models.append(ms)
     # two models of one workload must not collide in key: enforce different templates or thetas
